@@ -31,7 +31,7 @@ def gen_block(rng, depth, in_ns, counter, maxlen=3):
         elif r < 0.72:
             out.append(["ns", rng.randrange(3), gen_block(rng, depth - 1, True, counter, 2)])
         elif r < 0.88:
-            out.append(["scan", rng.choice([1, 2, 3]), gen_block(rng, depth - 1, False, counter, 2)])
+            out.append(["scan", rng.choice([1, 2, 3]), gen_block(rng, depth - 1, False, counter, 2), rng.random() < 0.35])
         else:
             out.append(["vmap", rng.choice([1, 2, 3]), gen_block(rng, depth - 1, in_ns, counter, 2)])
     return out
@@ -56,7 +56,7 @@ def gen_directed(rng, counter):
             inner = [["ns", nsid, inner]]
         kind = rng.choice(["scan", "scan", "vmap", "none"])
         if kind != "none":
-            inner = [[kind, rng.choice([1, 2, 3]), inner]]
+            inner = [[kind, rng.choice([1, 2, 3]), inner] + ([rng.random() < 0.35] if kind == "scan" else [])]
         for nsid in reversed(sub[:j]):
             inner = [["ns", nsid, inner]]
         out += inner
@@ -64,8 +64,10 @@ def gen_directed(rng, counter):
 
 
 def run_block(block, sc, lc, nv, x):
-    """returns the sum of the saved values (so the function result depends on the program)"""
+    """returns (the sum of the saved values, an order-sensitive small-integer hash of the scan positions
+    visited) so that the function result depends on the program and on the direction of its scans"""
     tot = x * 0.0
+    h = x * 0.0
     for s in block:
         t = s[0]
         if t == "save":
@@ -77,17 +79,23 @@ def run_block(block, sc, lc, nv, x):
         elif t == "det":
             tot = tot * 1.0 + 1.0
         elif t == "ns":
-            tot = tot + namespace(lambda b=s[2]: run_block(b, sc, lc, nv, x), f"s{s[1]}")()
+            a, b = namespace(lambda b=s[2]: run_block(b, sc, lc, nv, x), f"s{s[1]}")()
+            tot, h = tot + a, h + b
         elif t == "scan":
-            def body(c, i, b=s[2]):
-                return c + run_block(b, sc * 10.0 + i + 1.0, lc, nv, x), None
-            c, _ = jax.lax.scan(body, x * 0.0, jnp.arange(s[1], dtype=jnp.float32))
-            tot = tot + c
+            rv = len(s) > 3 and bool(s[3])
+
+            # the saved values carry the execution step k (a carried counter), not the position i
+            def body(carry, i, b=s[2]):
+                c, k, hh = carry
+                a, bh = run_block(b, sc * 10.0 + k + 1.0, lc, nv, x)
+                return (c + a, k + 1.0, jnp.mod(hh * 3.0 + i + 1.0 + bh, 1021.0)), None
+            (c, _, hh), _ = jax.lax.scan(body, (x * 0.0, x * 0.0, x * 0.0), jnp.arange(s[1], dtype=jnp.float32), reverse=rv)
+            tot, h = tot + c, h + hh
         elif t == "vmap":
-            r = jax.vmap(lambda l, b=s[2]: run_block(b, sc, lc * 10.0 + l + 1.0, nv + 1, x))(
+            r, rh = jax.vmap(lambda l, b=s[2]: run_block(b, sc, lc * 10.0 + l + 1.0, nv + 1, x))(
                 jnp.arange(s[1], dtype=jnp.float32))
-            tot = tot + jnp.sum(r)
-    return tot
+            tot, h = tot + jnp.sum(r), h + jnp.sum(rh)
+    return tot, h
 
 
 def canon_num(a):
@@ -126,7 +134,8 @@ def main():
             first = sw(jnp.zeros((2,), dtype=jnp.float32))[1]
             r5, s5 = sw(x)
             # the result is a float32 sum of the saved values (up to ~1e8): equal up to summation order
-            close = lambda a, b: bool(jnp.abs(a - b) <= 1e-5 * (1.0 + jnp.abs(b)))  # noqa: E731
+            # and of an exact small-integer hash of the scan positions in visiting order
+            close = lambda a, b: bool(jnp.abs(a[0] - b[0]) <= 1e-5 * (1.0 + jnp.abs(b[0]))) and bool(a[1] == b[1])  # noqa: E731
             c["transparent"] = close(plain, r1) and close(plain, r2) and close(plain, r3)
             c["transparent"] = c["transparent"] and close(plain, r4) and close(plain, r5)
             c["obs"] = [canon_tree(s1), canon_tree(s2), canon_tree(s3), canon_tree(s4), canon_tree(s5)]
